@@ -107,3 +107,26 @@ Definition sample_cfg_heartbeat_no_flush : list item :=
 Example sample_cfg_heartbeat_no_flush_accepted :
   explain_all [1; 2; 3] sample_cfg_heartbeat_no_flush = [].
 Proof. vm_compute. reflexivity. Qed.
+
+(* node 3 lags (empty log): the leader sends it the committed prefix as a
+   snapshot; node 3 installs it (durable, committed), the leader reads the
+   acknowledgement and goes on replicating normally *)
+Definition sm4 : areq := mkReq 1 1 2 1 [(1, PData 6)] 2.
+Definition sample_cfg_install : list item :=
+  firstn 10 sample_cfg_history ++
+  [ ([AInstall 3 1 1 [sn1; sd5] 2], [(3, mkO 1 Follower [sn1; sd5] 2 2)]);
+    ([AAck 1 3 2], [(1, mkO 1 Leader [sn1; sd5] 2 2)]);
+    ([AClient 1 6; ASend 1 2 1 2], []);
+    ([ARecv 3 sm4], [(3, mkO 1 Follower [sn1; sd5; (1, PData 6)] 3 2)]) ].
+
+Example sample_cfg_install_accepted : explain_all [1; 2; 3] sample_cfg_install = [].
+Proof. vm_compute. reflexivity. Qed.
+
+(* corrupted: a snapshot whose content was never committed *)
+Definition sample_cfg_install_uncommitted : list item :=
+  firstn 10 sample_cfg_history ++
+  [ ([AInstall 3 1 1 [sn1; sd5; (1, PData 9)] 3], []) ].
+
+Example sample_cfg_install_uncommitted_rejected :
+  run_hist [1; 2; 3] sample_cfg_install_uncommitted = HFail 10 1000.
+Proof. vm_compute. reflexivity. Qed.
